@@ -190,6 +190,13 @@ func (e *env) recv(p []byte, o *op) (async int, tag string) {
 		return 0, "perr"
 	}
 	tag = frame.PayloadID.String()
+	async = e.dispatch(frame, p, o)
+	e.s.Notify(frame)
+	return async, tag
+}
+
+// dispatch hands the parsed frame to the handler of its payload and applies what the handler learned.
+func (e *env) dispatch(frame packet.Frame, p []byte, o *op) (async int) {
 	switch frame.PayloadID {
 	case packet.PayloadDHCP4:
 		e.dhcp.ProcessPacket(frame)
@@ -268,8 +275,7 @@ func (e *env) recv(p []byte, o *op) (async int, tag string) {
 			}
 		}
 	}
-	e.s.Notify(frame)
-	return async, tag
+	return async
 }
 
 // dhcpAsync: how many decline frames the handler's goroutines will send for this message
